@@ -598,6 +598,21 @@ def invalid_inputs(mod, kessoku):
         open(os.path.join(d, p, "a.go"), "w").write('package %s\n\nimport "github.com/google/wire"\n\ntype T struct{}\n\nfunc NewT() *T { return &T{} }\n\nvar S%s = wire.NewSet(NewT)\n' % (p, p))
     rc, o, e = vlib.run([kessoku, "migrate", "-o", "kessoku.go", "./p1", "./p2"], cwd=d, env=env, timeout=300)
     recs.append(dict(kind="packages_mixed", rc=rc, wrote=os.path.exists(os.path.join(d, "kessoku.go")), stderr=e[-300:]))
+    # a pattern spanning two packages: the wire package is fine, the OTHER matched package has a type error
+    d = os.path.join(mod, "bad_other_pkg")
+    os.makedirs(os.path.join(d, "aaa"))
+    os.makedirs(os.path.join(d, "w"))
+    open(os.path.join(d, "aaa", "a.go"), "w").write("package aaa\n\nfunc Broken() int { return undefinedName }\n")
+    open(os.path.join(d, "w", "w.go"), "w").write('//go:build wireinject\n\npackage main\n\nimport "github.com/google/wire"\n\ntype T struct{}\n\nfunc NewT() *T { return &T{} }\n\nfunc Init() *T {\n\twire.Build(NewT)\n\treturn nil\n}\n')
+    rc, o, e = vlib.run([kessoku, "migrate", "-o", "w/kessoku.go", "./..."], cwd=d, env=env, timeout=300)
+    recs.append(dict(kind="type_error_in_another_matched_package", rc=rc, wrote=os.path.exists(os.path.join(d, "w", "kessoku.go")), stderr=e[-300:]))
+    # a syntax error inside the import block of the only wire file (the file's imports cannot even be listed)
+    d = os.path.join(mod, "bad_import_block")
+    os.makedirs(d)
+    open(os.path.join(d, "t.go"), "w").write("package main\n\ntype T struct{}\n\nfunc NewT() *T { return &T{} }\n")
+    open(os.path.join(d, "wire.go"), "w").write('//go:build wireinject\n\npackage main\n\nimport (\n\t"github.com/google/wire"\n\t"fmt\n)\n\nfunc Init() *T {\n\twire.Build(NewT)\n\treturn nil\n}\n')
+    rc, o, e = vlib.run([kessoku, "migrate", "-o", "kessoku.go", "./"], cwd=d, env=env, timeout=300)
+    recs.append(dict(kind="syntax_error_in_import_block", rc=rc, wrote=os.path.exists(os.path.join(d, "kessoku.go")), stderr=e[-300:]))
     # packages mixed, both called main (two commands below ./cmd)
     d = os.path.join(mod, "bad_mixed_main")
     for p in ("a", "b"):
@@ -683,6 +698,11 @@ KNOWN_CASES = {
         "main.go": 'package main\n\nfunc main() { println(string(*InitApp().H)) }\n',
         "wire.go": '//go:build wireinject\n\npackage main\n\nimport "github.com/google/wire"\n\nfunc InitApp() *App {\n\twire.Build(NewConfig, wire.FieldsOf(new(*Config), "Host"), NewApp)\n\treturn nil\n}\n'},
         what="sig"),
+    "KF-C14-32": dict(files={
+        "t.go": 'package main\n\ntype A struct{ S string }\n\nfunc NewA() *A { return &A{S: "a"} }\n',
+        "main.go": 'package main\n\nfunc main() { println(InitA().S) }\n',
+        "wire.go": '//go:build wireinject\n\npackage main\n\nimport "github.com/google/wire"\n\nvar ASet = wire.NewSet(NewA)\n\nfunc InitA() *A {\n\twire.Build(ASet)\n\treturn nil\n}\n'},
+        what="rerun"),
     "KF-C14-15": dict(files={
         "go-conf/conf.go": 'package conf\n\ntype Conf struct{ S string }\n\nfunc NewConf() *Conf { return &Conf{S: "c"} }\n',
         "t.go": 'package main\n\nimport "vscratch/NAME/go-conf"\n\ntype App struct{ C *conf.Conf }\n\nfunc NewApp(c *conf.Conf) *App { return &App{C: c} }\n',
@@ -716,6 +736,14 @@ def known_runs():
         rc, o, e = vlib.run([kessoku, "migrate", "-o", "kessoku.go", "./"], cwd=kdir, env=env, timeout=300)
         if rc != 0:
             out[kid] = dict(reproduced=False, detail="migrate fails: " + e[-200:])
+            continue
+        if case["what"] == "rerun":
+            # the same command again in the same directory: the previous output is now part of the package migrate loads
+            first = open(os.path.join(kdir, "kessoku.go")).read()
+            rc, o, e = vlib.run([kessoku, "migrate", "-o", "kessoku.go", "./"], cwd=kdir, env=env, timeout=300)
+            same = os.path.exists(os.path.join(kdir, "kessoku.go")) and open(os.path.join(kdir, "kessoku.go")).read() == first
+            out[kid] = dict(reproduced=(rc != 0), detail="second run of `kessoku migrate -o kessoku.go ./` in the same directory: exit %d (%s); output file %s" % (
+                rc, (e.strip().splitlines() or [""])[-1][-120:], "unchanged" if same else "changed"), output_changed=not same)
             continue
         os.remove(os.path.join(kdir, "wire.go"))
         rc, o, e = vlib.run([kessoku, "kessoku.go"], cwd=kdir, env=env, timeout=300)
@@ -834,6 +862,16 @@ DIRECTED = {
         "w/t.go": 'package main\n\nimport "vscratch/NAME/aaa"\n\ntype Local struct{ H *aaa.Helper }\n',
         "w/main.go": 'package main\n\nfunc main() { println(InitLocal().H.S) }\n',
         "w/wire.go": '//go:build wireinject\n\npackage main\n\nimport (\n\t"github.com/google/wire"\n\n\t"vscratch/NAME/aaa"\n)\n\nfunc InitLocal() *Local {\n\twire.Build(aaa.NewHelper, wire.Struct(new(Local), "*"))\n\treturn nil\n}\n'},
+    # two wire files import DIFFERENT packages under the same name conf; the InterfaceValue expression of the second file
+    # must end up referring to ITS package in the merged output (which knows one of the two under another name)
+    "interface_value_same_named_packages": {
+        "alpha/conf/c.go": 'package conf\n\ntype Src struct{ S string }\n\nfunc (s *Src) String() string { return s.S }\n\nvar Default = &Src{S: "alpha"}\n\ntype A struct{ S string }\n\nfunc NewA() *A { return &A{S: "alpha-a"} }\n',
+        "beta/conf/c.go": 'package conf\n\ntype Src struct{ S string }\n\nfunc (s *Src) String() string { return s.S }\n\nvar Default = &Src{S: "beta"}\n\ntype A struct{ S string }\n\nfunc NewA() *A { return &A{S: "beta-a"} }\n',
+        "t.go": 'package main\n\nimport (\n\t"fmt"\n\n\taconf "vscratch/NAME/alpha/conf"\n)\n\ntype App struct{ S string }\n\nfunc NewApp(a *aconf.A, s fmt.Stringer) *App { return &App{S: a.S + " " + s.String()} }\n',
+        "main.go": 'package main\n\nfunc main() { println(InitApp().S) }\n',
+        "sets_a.go": 'package main\n\nimport (\n\t"github.com/google/wire"\n\n\t"vscratch/NAME/alpha/conf"\n)\n\nvar ASet = wire.NewSet(conf.NewA)\n',
+        "sets_b.go": 'package main\n\nimport (\n\t"fmt"\n\n\t"github.com/google/wire"\n\n\t"vscratch/NAME/beta/conf"\n)\n\nvar BSet = wire.NewSet(wire.InterfaceValue(new(fmt.Stringer), conf.Default))\n',
+        "wire.go": '//go:build wireinject\n\npackage main\n\nimport "github.com/google/wire"\n\nfunc InitApp() *App {\n\twire.Build(ASet, BSet, NewApp)\n\treturn nil\n}\n'},
     "interface_value_nested_selector": {
         "streams/streams.go": 'package streams\n\nimport "bytes"\n\nvar Std = struct{ Out *bytes.Buffer }{Out: bytes.NewBufferString("buf")}\n',
         "t.go": 'package main\n\nimport "fmt"\n\ntype App struct{ S string }\n\nfunc NewApp(w fmt.Stringer) *App { return &App{S: w.String()} }\n',
@@ -890,7 +928,9 @@ def directed_runs(key="WD-x"):
         if rc != 0 or open(os.path.join(kdir2, "kessoku.go")).read().replace(name + "_k2", name + "_k") != text1:
             rec["problems"].append("C14: migrate over a longer previous output file does not produce the same bytes as a fresh run")
         shutil.rmtree(root2, ignore_errors=True)
-        os.remove(os.path.join(kdir, "wire.go"))
+        for fn in sorted(os.listdir(kdir)):        # the wire files are set aside
+            if fn.endswith(".go") and fn != "kessoku.go" and '"github.com/google/wire"' in open(os.path.join(kdir, fn)).read():
+                os.remove(os.path.join(kdir, fn))
         rc, o, e = vlib.run(["gofmt", "-l", "kessoku.go"], cwd=kdir, env=env, timeout=60)
         if rc != 0 or o.strip():
             rec["problems"].append("C14: migrated file is not gofmt-stable: %s%s" % (o, e[-200:]))
